@@ -1,7 +1,7 @@
 #!/bin/sh
-# Run every registered thorough check once; one line per run.
+# Run every registered thorough check (and the extension checks X01..X07) once; one line per run.
 cd "$(dirname "$0")/.."
-for p in $(/venv/bin/python -c "import json; print(' '.join(c['property_id'] for c in json.load(open('MANIFEST.json'))['checks']))"); do
+for p in $(/venv/bin/python -c "import json; print(' '.join(c['property_id'] for c in json.load(open('MANIFEST.json'))['checks']))") X01 X02 X03 X04 X05 X06 X07; do
   start=$(date +%s)
   VERIF_SEED=${SEED:-0} ./check $p --tier thorough > /tmp/tsweep_$$.log 2>&1; rc=$?
   echo "$p thorough rc=$rc wall=$(( $(date +%s) - start ))s $(grep -c '^VIOLATION' /tmp/tsweep_$$.log) violations $(grep -c '^KNOWN-FINDING' /tmp/tsweep_$$.log) known $(grep -m1 'MACHINERY' /tmp/tsweep_$$.log | cut -c1-200)"
